@@ -1005,7 +1005,9 @@ class Engine(ExprMixin, CallMixin):
     def st_If(self, s, st):
         try:
             c = self.truth(self.ev(s.test, st))
-        except Unsupported:
+        except (Unsupported, z3.Z3Exception):
+            # (Z3Exception: the operands' values have different sorts, e.g. `opt_str and a != b` - str or bool - so the VALUE of
+            # the test has no common value tree either; same fallback)
             if not isinstance(s.test, ast.BoolOp):
                 raise
             # `if a and b:` whose operands have no common value tree (e.g. `x is None and some_list`): only the truth of the
@@ -1641,6 +1643,35 @@ class Engine(ExprMixin, CallMixin):
                 c0 = z3.Const(uid(v_ + ".named"), cur.sort())
                 st.assume(c0 == cur)
                 st.env[v_] = c0
+        elif cmd.startswith("replace "):
+            # "replace x by e": x == e is proved here (obligation ghost.replace[..]); from here on the program variable x
+            # denotes the value of e.  Replacing a value by an equal value changes nothing the program can observe as long as
+            # the value has no identity: only scalars and tuples / records / Optionals of those are accepted (references,
+            # lists, dicts and sets are refused).  Later terms are then built from e's (typically smaller, specification-level)
+            # terms instead of the computed ones.
+            vname, expr = cmd[8:].split(" by ", 1)
+            vname = vname.strip()
+            if vname not in st.env:
+                raise ContractError(f"replace: {vname!r} is not a program variable")
+            val = self.spec_value(expr, st)
+
+            def plain(v_):
+                if isinstance(v_, (VRec,)):
+                    return all(plain(x_) for x_ in v_.fields.values())
+                if isinstance(v_, VTuple) and not isinstance(v_, VHList):
+                    return all(plain(x_) for x_ in v_.items)
+                if isinstance(v_, VOpt):
+                    return plain(v_.val)
+                return v_ is None or is_conc(v_) or (is_leaf(v_) and (is_bool(v_) or is_int(v_) or is_str(v_) or v_.sort() == z3.RealSort()))
+            if not (plain(val) and plain(st.env[vname])):
+                raise ContractError(f"replace {vname}: only values without identity (scalars, tuples, records, Optionals of those)")
+            label = g.get("label", g["at"][:24])
+            goal = self.spec_eval(f"{vname} == ({expr.strip()})", st)
+            self.emit(f"ghost.replace[{label}]", st, goal, node, kind="ghost")
+            st.assume(to_z3(goal))
+            st.env[vname] = val
+            if vname in st.narrowed:
+                st.narrowed = st.narrowed - {vname}
         elif cmd.startswith("let "):
             name, expr = cmd[4:].split("=", 1)
             st.ghost[name.strip()] = self.spec_value(expr, st)
@@ -1668,8 +1699,8 @@ class Engine(ExprMixin, CallMixin):
             for p_, c0 in zip(params, cs):
                 s2.ghost[p_] = c0
             body = self.spec_value(expr, s2)
-            if not (is_bool(body) or is_int(body)):
-                raise ContractError(f"define {name}: the defining expression must be a Bool or an Int")
+            if not (is_bool(body) or is_int(body) or (is_leaf(body) and body.sort() in (z3.StringSort(), z3.RealSort())) or isinstance(body, str)):
+                raise ContractError(f"define {name}: the defining expression must be a Bool, an Int, a Real or a String")
             body = to_z3(body)
             f = z3.Function(uid(name), *(psorts + [body.sort()]))
             st.ghost[name] = VFunc("pyfunc", (lambda f: lambda *a: f(*[to_z3(x) for x in a]))(f), name)
